@@ -306,6 +306,69 @@ def gen_sequence(rng, W, n, length):
     return ops
 
 
+def gen_carry_chain(rng, W, n, length):
+    """Carry-chain sequences: a 2-5 word value assembled from boundary words (all-ones, all-ones-1, 0, 1,
+    0x55.., 0xAA.., top bit) is multiplied by all-ones / small multipliers, divided back, and hit by adds /
+    subtracts that ripple through several words.  Every step fits (the value is tracked exactly)."""
+    ones = (1 << W) - 1
+    total = n * W
+    M = (1 << total) - 1
+    fives = ones // 3                       # 0x55..55
+    words = [ones, ones, ones - 1, 0, 1, fives, fives, ones - fives, 1 << (W - 1), (1 << (W - 1)) - 1, 7, 3]
+    mults = [ones, ones, ones - 1, 2, 3, 3, 5, 10, 1 << (W - 1), (1 << (W - 1)) + 1, fives, 255 & ones, 1]
+    ty = str(W)
+    ops = []
+    v = 0
+
+    def build():
+        nonlocal v
+        k = rng.randrange(2, max(3, min(5, n - 1) + 1)) if n >= 3 else rng.randrange(1, n + 1)
+        k = max(1, min(k, n - 1 if n > 1 else 1))
+        ws = [rng.choice(words) for _ in range(k)]
+        if ws[-1] == 0:
+            ws[-1] = rng.choice([1, 7, ones])
+        ops.append("as:%s:%d" % (ty, ws[-1])); v = ws[-1]
+        for w in reversed(ws[:-1]):
+            ops.append(rng.choice(["sl:%d", "sln:%d"]) % W); v <<= W
+            if w:
+                ops.append("%s:%s:%d" % (rng.choice(["or", "ad"]), ty, w)); v += w
+    build()
+    while len(ops) < length:
+        r = rng.random()
+        if r < 0.40:
+            m = rng.choice(mults)
+            if v * m <= M:
+                ops.append("%s:%d" % (rng.choice(["mu", "mun"]), m)); v *= m
+            elif v:
+                k = rng.randrange(1, v.bit_length() + 1)
+                ops.append("sr:%d" % k); v >>= k
+        elif r < 0.52:
+            d = rng.choice([m for m in mults if m])
+            ops.append("dv:%d" % d); v //= d
+        elif r < 0.66:
+            x = rng.choice([ones, ones, 1, ones - 1, fives])
+            i = rng.randrange(0, max(1, min(n, v.bit_length() // W + 1)))
+            if v + (x << (W * i)) <= M:
+                ops.append("ai:%d:%d" % (i, x)); v += x << (W * i)
+        elif r < 0.76:
+            x = rng.choice([ones, 1, 1, fives])
+            i = rng.randrange(0, max(1, v.bit_length() // W + 1))
+            if (x << (W * i)) <= v:
+                ops.append("si:%d:%d" % (i, x)); v -= x << (W * i)
+        elif r < 0.82:
+            if v and v * (v & ones) <= M:
+                ops.append("smu"); v *= v & ones
+        elif r < 0.90:
+            ops.append(rng.choice(["fl", "ff", "nu", "ib", "nw:128", "nw:64"]) if v else "iz")
+        elif r < 0.95:
+            k = rng.choice([1, W - 1, W, W + 1])
+            if (v << k) <= M:
+                ops.append("sl:%d" % k); v <<= k
+        else:
+            build()
+    return ops[:max(length, 1)] if length >= len(ops) else ops[:length]
+
+
 CORPUS_DIR = os.path.join(core.VERIF, "corpus", "C19")
 
 
@@ -481,6 +544,15 @@ def run(ctx):
             L = rng.choice([length, length, max(4, length // 4), rng.randrange(1, length + 1)])
             lines.append("bigseq %d %d %s" % (W, n, " ".join(gen_sequence(rng, W, n, L))))
     run_sequences(ctx, drv, exe, lines, "sequences")
+    # carry chains (all steps fit): more of them at 64-bit words, where Multiply/Divide use the half-word helpers
+    clines = []
+    for (W, n) in INST:
+        if n < 2:
+            continue
+        cnt = (150 if W == 64 else 40) * (4 if ctx.thorough else 1)
+        for _ in range(cnt):
+            clines.append("bigseq %d %d %s" % (W, n, " ".join(gen_carry_chain(rng, W, n, rng.choice([12, 25, 40])))))
+    run_sequences(ctx, drv, exe, clines, "carry-chains")
     run_helpers(ctx, drv, exe)
     from checks import _c19_api
     rows, orow, unc = _c19_api.audit()
@@ -495,5 +567,5 @@ def run(ctx):
 
 
 FINISH = dict(level="proof",
-              rule="operation sequences (<= 40 quick / 400 thorough steps; 200 and 100 steps for the 64- and 256-word instantiations) on 20 instantiations, operands biased to 0, 1, all-ones, single bits, word boundaries, divisors with the top bit set, odd/even, shifts at multiples of the word size and at the exact remaining room; both DoubleSize helper variants exhaustively at 8-bit words (2 x (2^16 + 255*2^16) cases), random boundary-biased at 16/32/64",
+              rule="operation sequences (<= 40 quick / 400 thorough steps; 200 and 100 steps for the 64- and 256-word instantiations) on 20 instantiations, operands biased to 0, 1, all-ones, single bits, word boundaries, divisors with the top bit set, odd/even, shifts at multiples of the word size and at the exact remaining room; carry-chain sequences (2-5 word values of all-ones / all-ones-1 / 0 / 1 / 0x55.. words times all-ones and small multipliers, rippling adds/subtracts, every step fitting; 150 per 64-bit instantiation); both DoubleSize helper variants exhaustively at 8-bit words (2 x (2^16 + 255*2^16) cases), random boundary-biased at 16/32/64",
               checker_cmd="cd lean && lake build Qentem.Props.C19 && lake env lean <#print axioms of the listed theorems>")
